@@ -13,7 +13,7 @@ from ..worker import Worker, arg, unjson
 LEVEL = "exploration"
 RULE = ("cases = 1-10 users connected in order, a subset closed again (gaps in the slot table), then 3-25 cycles with per-cycle arrivals: user u sends "
         "k complete lines (one packet or one line per packet) or a partial line completed later; special commands: 'multi' (handler calls command() three "
-        "times), 'kick<j>' (handler destructs user j mid-cycle), 'menu' / 'pager' (handler calls get_char(); the key presses and further commands are type-ahead in the same packet; the pager re-arms get_char() from its callback). non-trivial = at least two users have lines waiting in one cycle and the slot table has a "
+        "times), 'kick<j>' (handler destructs user j mid-cycle), 'quit' (the handler destructs its own user object), 'menu' / 'pager' (handler calls get_char(); the key presses and further commands are type-ahead in the same packet; the pager re-arms get_char() from its callback). non-trivial = at least two users have lines waiting in one cycle and the slot table has a "
         "gap; distinct = (layout, arrival pattern) hash")
 ASSUMPTIONS = ["bytes are confirmed to have reached the driver-side socket (FIONREAD) before the cycle in which they count as waiting",
                "telnet ports only (the command buffer and turn system of docs/internals/user-command-turn.md); get_char() is driven with type-ahead that is already buffered when the key is asked for, not with bytes arriving while the connection is in single-character mode",
@@ -43,6 +43,7 @@ int cmd_any(string arg) {
   string v = query_verb();
   "/t/c12d"->note(id, v + (arg ? " " + arg : ""), "cmd");
   if (v == "multi") { command("sub one"); command("sub two"); command("sub three"); }
+  if (v == "quit") { destruct(this_object()); return 1; }   // the user ends its own connection from inside its command
   if (v == "menu") get_char("gc_cb");                    // the next buffered input goes to the callback
   if (v == "pager") { pager = 1; get_char("gc_cb"); }    // ... and so does every one after it, until a 'q'
   if (v[0..3] == "kick") { object o = "/t/c12d"->user(to_int(v[4..])); if (o && o != this_object()) destruct(o); }
@@ -66,7 +67,7 @@ def cases(draw):
             u = draw(st.integers(0, n - 1))
             k = draw(st.integers(1, 6))
             mode = draw(st.sampled_from(["packet", "packet", "trickle", "partial"]))
-            special = draw(st.sampled_from(["", "", "", "", "multi", "kick", "menu", "pager"]))
+            special = draw(st.sampled_from(["", "", "", "", "multi", "kick", "menu", "pager", "quit"]))
             arrivals.append(dict(u=u, k=k, mode=mode, special=special, target=draw(st.integers(0, n - 1))))
         cycles.append(arrivals)
     return dict(n=n, closed=closed, cycles=cycles)
@@ -99,6 +100,8 @@ def evaluate_case(ctx, w, case):
                     lines.append("multi m%d" % seq)
                 elif a["special"] == "kick" and j == 0:
                     lines.append("kick%d k%d" % (a["target"], seq))
+                elif a["special"] == "quit" and j == a["k"] - 1:
+                    lines.append("quit q%d" % seq)
                 elif a["special"] in ("menu", "pager") and j == 0 and a["mode"] != "partial" and not partial[u]:
                     # the command that asks for a key, the type-ahead that answers it, and ordinary commands behind it: one packet
                     lines.append("%s g%d" % (a["special"], seq))
@@ -180,6 +183,10 @@ def evaluate_case(ctx, w, case):
             if queue[u][0] != line:
                 return ("wrong-order-or-content", "cycle %d: user %d executed %r, expected %r\n%s" % (ci + 1, u, line, queue[u][0], info)), None
             queue[u].pop(0)
+            if line.startswith("quit"):
+                live[u] = False          # gone by its own hand; everybody else with a line waiting is still owed this cycle's turn
+                killed_now.add(u)
+                feats.add("quit-mid-cycle")
             if line.startswith("kick"):
                 t = int(line[4:].split()[0])
                 if t != u and t < n and live[t]:
